@@ -29,9 +29,12 @@ def _env(extra_rustflags=""):
 
 
 def _lock():
+    """Exclusive build lock. A POSIX record lock (lockf) belongs to the *process*: a child
+    forked while the lock is held does not keep it alive (a BSD flock would be shared through
+    the inherited descriptor and could dead-lock a worker pool against its own parent)."""
     os.makedirs(TARGET, exist_ok=True)
     f = open(os.path.join(TARGET, ".verif-build.lock"), "w")
-    fcntl.flock(f, fcntl.LOCK_EX)
+    fcntl.lockf(f, fcntl.LOCK_EX)
     return f
 
 
